@@ -456,9 +456,27 @@ def validate(run, encs, count):
     argvs = validation_argvs(count)
     try:
         reals = real_run(argvs)
-    except Exception as ex:   # e.g. the real function does not return (timeout): nothing can be claimed
-        run.harness_error(f"validation: the real load_commandline_flags could not be run on the validation command lines: {type(ex).__name__}: {str(ex)[:300]}")
-        return len(argvs), len(argvs)
+    except Exception as ex:   # e.g. the real function does not return on one of them: find which, one command line at a time
+        import subprocess as _sp
+        hung, reals = [], []
+        for argv in argvs:
+            if len(hung) >= 3:
+                reals.append(None)
+                continue
+            try:
+                reals.append(pyif.run_real(REPLAY_CODE, {'argvs': [argv]}, chk.REPO, timeout=20)[0])
+            except _sp.TimeoutExpired:
+                hung.append(argv)
+                reals.append(None)
+            except Exception as ex2:
+                run.harness_error(f"validation: the real load_commandline_flags could not be run on {argv}: {type(ex2).__name__}: {str(ex2)[:200]}")
+                return len(argvs), len(argvs)
+        for argv in hung[:3]:
+            # "finishes with a configuration or a reported error": a command line on which resolution does not return (replayed: 20 s)
+            run.violation('C19/terminates', {'argv': argv, 'observed': 'no return within 20 s'}, f'load_commandline_flags does not return for {argv}')
+        run.ob('C19/terminates', discharged=not hung)
+        argvs = [a for a, r in zip(argvs, reals) if r is not None]
+        reals = [r for r in reals if r is not None]
     bad = 0
     for argv, real in zip(argvs, reals):
         level, od = parse_argv(argv)
